@@ -205,7 +205,7 @@ reg(Prop("C11", "inputs are not consumed by a run",
     extra_obl=["translator run on the current source (fail-closed)"]))
 
 reg(Prop("C14", "no look-ahead: past outputs do not depend on future weather",
-    [("clock", 120, 1200), ("inputs", 2000, 20000), ("day", 2000, 30000)],
+    [("clock", 120, 1200), ("inputs", 2000, 20000), ("day", 2000, 30000), ("runc", 36, 400)],
     worker_mon("C14", monitors2.worker_C14, 30, 500, timeout=900),
     ["all theorems 'Closed under the global context'; Clock.v theorems hold for every physics",
      "that one day's processes read only that day's weather record is the typing of Clock.proc (one W argument) tied by the Day.v replay (weather_step fields) and the clock suite; "
